@@ -10,6 +10,8 @@ OpSecs == {Absent, L(<<>>), L(<< <<>> >>), L(<< <<"A">> >>), L(<< <<"A", "B">> >
            \* "U" is a scheme name components.securitySchemes does not declare (document validation accepts that): an
            \* alternative naming it can never be satisfied, the others are unaffected
            L(<< <<"U">> >>), L(<< <<"U">>, <<"A">> >>), L(<< <<"A">>, <<"U">> >>), L(<< <<"A", "U">>, <<"B">> >>)}
+           \* (thorough) a requirement of three schemes: abandoned at its first, second or third scheme
+           \cup (IF Tier = "thorough" THEN {L(<< <<"A", "B", "C">> >>), L(<< <<"A", "B", "C">>, <<"C">> >>)} ELSE {})
 DocSecs == {<<>>, << <<"A">> >>, << <<"B">> >>, << <<"U">>, <<"B">> >>}
 
 P(in, name, kind) == [in |-> in, name |-> name, kind |-> kind]
